@@ -1,6 +1,7 @@
 package dbp
 
 import (
+	"bytes"
 	"fmt"
 	"os"
 	"path/filepath"
@@ -36,11 +37,12 @@ type ConcOp struct {
 }
 
 type LinCase struct {
-	Progs      [][]ConcOp `json:"progs"`
-	HTTP       bool       `json:"http"`
-	Setup      int        `json:"setup"`       // the first Setup programs run to completion, one after the other, before the others start
-	AuditYield int        `json:"audit_yield"` // the audit device yields the processor this many times per write/sync (a slow device)
-	Rules      []model.Rule `json:"rules,omitempty"` // grant of the restricted caller
+	Progs       [][]ConcOp   `json:"progs"`
+	HTTP        bool         `json:"http"`
+	Setup       int          `json:"setup"`                   // the first Setup programs run to completion, one after the other, before the others start
+	AuditYield  int          `json:"audit_yield"`             // the audit device yields the processor this many times per write/sync (a slow device)
+	Rules       []model.Rule `json:"rules,omitempty"`         // grant of the restricted caller
+	ReadDelayUs int          `json:"read_delay_us,omitempty"` // the audit device takes this much longer over records of read accesses
 }
 
 type linOut struct {
@@ -132,10 +134,16 @@ type linSink struct {
 	mu      sync.Mutex
 	records [][]byte
 	yields  int
+	// records of read accesses take this much longer (a device on which one kind of record is slow
+	// lets several complete calls of other clients fit into one call's audit step)
+	readDelay time.Duration
 }
 
 func (s *linSink) Write(p []byte) (int, error) {
 	cp := append([]byte{}, p...)
+	if s.readDelay > 0 && bytes.Contains(cp, []byte(`"action":"get"`)) {
+		time.Sleep(s.readDelay)
+	}
 	for i := 0; i < s.yields; i++ {
 		runtime.Gosched()
 	}
@@ -156,7 +164,7 @@ func runC14(t *testing.T, c LinCase) (*h.Violation, h.Info) {
 	var info h.Info
 	dir := caseDir(t)
 	defer os.RemoveAll(dir)
-	sink := &linSink{yields: c.AuditYield}
+	sink := &linSink{yields: c.AuditYield, readDelay: time.Duration(c.ReadDelayUs) * time.Microsecond}
 	d, err := db.Open(filepath.Join(dir, "db"), dbx.DummyKey(), audit.New(sink))
 	if err != nil {
 		return h.V("harness", "open: %v", err), info
@@ -295,7 +303,7 @@ func runC14(t *testing.T, c LinCase) (*h.Violation, h.Info) {
 }
 
 func genLinCase(rt *rapid.T) LinCase {
-	c := LinCase{HTTP: rapid.IntRange(0, 2).Draw(rt, "http") == 0, AuditYield: rapid.SampledFrom([]int{0, 1, 3}).Draw(rt, "audityield")}
+	c := LinCase{HTTP: rapid.IntRange(0, 2).Draw(rt, "http") == 0, AuditYield: rapid.SampledFrom([]int{0, 1, 3}).Draw(rt, "audityield"), ReadDelayUs: rapid.SampledFrom([]int{0, 0, 100, 400}).Draw(rt, "readdelay")}
 	nc := rapid.IntRange(2, 4).Draw(rt, "clients")
 	names := []string{"a", "a", "a", "b"}
 	withLow := rapid.IntRange(0, 2).Draw(rt, "with-restricted") == 0
@@ -313,6 +321,17 @@ func genLinCase(rt *rapid.T) LinCase {
 				Restricted: withLow && rapid.IntRange(0, 2).Draw(rt, "restricted") > 0,
 			}
 		}), 2, 5).Draw(rt, "prog"))
+	}
+	if rapid.IntRange(0, 3).Draw(rt, "rotation") == 0 {
+		// a rotation (activate the new version, delete the old one) by one client while the others read:
+		// two versions of "a" are put first, one after the other
+		c.Progs = append([][]ConcOp{{{Kind: "put", Name: "a", Val: "x"}, {Kind: "put", Name: "a", Val: "y"}}}, c.Progs...)
+		c.Setup = 1
+		c.Progs[1] = append([]ConcOp{{Kind: "activate", Name: "a", Ver: 2}, {Kind: "delver", Name: "a", Ver: 1}}, c.Progs[1]...)
+		c.Progs[2] = append([]ConcOp{{Kind: rapid.SampledFrom([]string{"get", "get", "cond", "info"}).Draw(rt, "reader"), Name: "a", Ver: 2}}, c.Progs[2]...)
+		if c.ReadDelayUs == 0 {
+			c.ReadDelayUs = 200
+		}
 	}
 	return c
 }
@@ -341,7 +360,7 @@ var c14 = &h.Campaign[LinCase]{
 // conditional gets and activations of one secret that starts with several versions.
 var c09conc = &h.Campaign[LinCase]{
 	Prop: "C09", Sub: "concurrent",
-	Rule:  "rapid: 2-4 clients x 2-6 calls, mostly conditional gets (V in 1..4) and activations (also puts, get) on one secret that first receives three versions, all clients talking to one server instance (or db.DB); each recorded history is decided by porcupine against the map model (a conditional get may answer not-modified only if some linearization point has active == V, and may never return version V itself); under the race detector; non-trivial = overlapping calls on the name with at least one mutation; distinct by program",
+	Rule:  "rapid: 2-4 clients x 2-6 calls, mostly conditional gets (V in 1..4) and activations (also delete-versions, puts, get) on one secret that first receives three versions, all clients talking to one server instance (or db.DB); each recorded history is decided by porcupine against the map model (a conditional get may answer not-modified only if some linearization point has active == V, and may never return version V itself); under the race detector; non-trivial = overlapping calls on the name with at least one mutation; distinct by program",
 	Quick: 600, Thorough: 80000,
 	Gen: func(rt *rapid.T) LinCase {
 		c := LinCase{HTTP: rapid.IntRange(0, 1).Draw(rt, "http") == 0, AuditYield: rapid.SampledFrom([]int{0, 1, 3}).Draw(rt, "audityield")}
@@ -350,7 +369,7 @@ var c09conc = &h.Campaign[LinCase]{
 		for i := 0; i < nc; i++ {
 			c.Progs = append(c.Progs, rapid.SliceOfN(rapid.Custom(func(rt *rapid.T) ConcOp {
 				return ConcOp{
-					Kind:  rapid.SampledFrom([]string{"cond", "cond", "cond", "activate", "activate", "put", "get"}).Draw(rt, "kind"),
+					Kind:  rapid.SampledFrom([]string{"cond", "cond", "cond", "activate", "activate", "delver", "put", "get"}).Draw(rt, "kind"),
 					Name:  "a",
 					Val:   rapid.SampledFrom([]string{"x", "w"}).Draw(rt, "val"),
 					Ver:   uint32(rapid.IntRange(1, 4).Draw(rt, "ver")),
@@ -370,7 +389,7 @@ var c09conc = &h.Campaign[LinCase]{
 // overlap inside the access check.
 var c01conc = &h.Campaign[LinCase]{
 	Prop: "C01", Sub: "concurrent",
-	Rule: "rapid: 2-4 clients x 2-6 calls on names {a, b} at db.DB or through one shared server; client 0 is the superuser, the others call as ONE restricted identity with a generated grant (1-2 rules), so allowed and refused calls of different callers overlap while the (slow, reading) audit device is writing; each recorded history is decided by porcupine against the map model in which a call the ACL model refuses must answer access-denied and change nothing; under the race detector; non-trivial = overlapping calls on one name with a mutation AND at least one refused call; distinct by program",
+	Rule:  "rapid: 2-4 clients x 2-6 calls on names {a, b} at db.DB or through one shared server; client 0 is the superuser, the others call as ONE restricted identity with a generated grant (1-2 rules), so allowed and refused calls of different callers overlap while the (slow, reading) audit device is writing; each recorded history is decided by porcupine against the map model in which a call the ACL model refuses must answer access-denied and change nothing; under the race detector; non-trivial = overlapping calls on one name with a mutation AND at least one refused call; distinct by program",
 	Quick: 500, Thorough: 60000,
 	Gen: func(rt *rapid.T) LinCase {
 		c := LinCase{HTTP: rapid.IntRange(0, 2).Draw(rt, "http") == 0, AuditYield: rapid.SampledFrom([]int{1, 3, 8}).Draw(rt, "audityield"), Rules: genLinRules(rt)}
